@@ -75,54 +75,56 @@ func runC04(r *Run) {
 	})
 
 	r.rule("R4", "prefix joins go through getGroupPath at every composition point (E5)", func() {
-		isJoin := func(v ssa.Value) bool {
-			c, ok := v.(*ssa.Call)
-			return ok && calleeName(&c.Call) == fiberMod+".getGroupPath"
-		}
-		n := 0
-		// register calls inside Group methods: path argument derives from getGroupPath
-		for _, m := range []string{"(*Group).Add", "(*Group).Use", "(*Group).Group", "(*Group).mount"} {
-			f := r.Fn("", m)
-			for i, c := range callsMatching(f, false, nameHasSuffix("App).register")) {
-				n++
-				arg := c.Common.Args[2] // recv, methods, pathRaw
-				r.check(dependsOn(arg, isJoin) != nil, fmt.Sprintf("%s:register#%d", m, i), r.pos(c.Instr), "registered path = getGroupPath(group prefix, path)",
-					m+" registers a path that is not joined with the group prefix through getGroupPath")
+		withoutHelpers(func() { // attribution rule: each construct belongs to the one function that contains it
+			isJoin := func(v ssa.Value) bool {
+				c, ok := v.(*ssa.Call)
+				return ok && calleeName(&c.Call) == fiberMod+".getGroupPath"
 			}
-		}
-		// stores that carry the prefix forward
-		for _, spec := range []struct{ fn, field string }{
-			{"(*Group).Group", "Group.Prefix"}, {"(*Group).Route", "Registering.path"}, {"(*Registering).Route", "Registering.path"},
-			{"(*Group).mount", "Group.Prefix"}, {"(*App).addPrefixToRoute", "Route.Path"},
-		} {
-			f := r.Fn("", spec.fn)
-			found := false
-			for _, fr := range fieldRefs(f) {
-				if fr.Write && fr.Name == spec.field {
-					found = true
+			n := 0
+			// register calls inside Group methods: path argument derives from getGroupPath
+			for _, m := range []string{"(*Group).Add", "(*Group).Use", "(*Group).Group", "(*Group).mount"} {
+				f := r.Fn("", m)
+				for i, c := range callsMatching(f, false, nameHasSuffix("App).register")) {
 					n++
-					r.check(dependsOn(fr.Val, isJoin) != nil, spec.fn+":"+spec.field, r.pos(fr.Instr), spec.field+" is built by getGroupPath",
-						spec.fn+" builds "+spec.field+" without getGroupPath (a second, diverging prefix joiner)")
+					arg := c.Common.Args[2] // recv, methods, pathRaw
+					r.check(dependsOn(arg, isJoin) != nil, fmt.Sprintf("%s:register#%d", m, i), r.pos(c.Instr), "registered path = getGroupPath(group prefix, path)",
+						m+" registers a path that is not joined with the group prefix through getGroupPath")
 				}
 			}
-			if !found {
-				r.bad(spec.fn+":"+spec.field, r.fpos(f), spec.fn+" no longer stores "+spec.field)
+			// stores that carry the prefix forward
+			for _, spec := range []struct{ fn, field string }{
+				{"(*Group).Group", "Group.Prefix"}, {"(*Group).Route", "Registering.path"}, {"(*Registering).Route", "Registering.path"},
+				{"(*Group).mount", "Group.Prefix"}, {"(*App).addPrefixToRoute", "Route.Path"},
+			} {
+				f := r.Fn("", spec.fn)
+				found := false
+				for _, fr := range fieldRefs(f) {
+					if fr.Write && fr.Name == spec.field {
+						found = true
+						n++
+						r.check(dependsOn(fr.Val, isJoin) != nil, spec.fn+":"+spec.field, r.pos(fr.Instr), spec.field+" is built by getGroupPath",
+							spec.fn+" builds "+spec.field+" without getGroupPath (a second, diverging prefix joiner)")
+					}
+				}
+				if !found {
+					r.bad(spec.fn+":"+spec.field, r.fpos(f), spec.fn+" no longer stores "+spec.field)
+				}
 			}
-		}
-		r.atLeast("composition points", n, 8)
-		// the re-prefixed pattern is built from the route's raw registered pattern (Route.Path), like a group registration
-		// would see it — not from the sub-app's already normalised Route.path
-		pre := r.Fn("", "(*App).addPrefixToRoute")
-		joins := callsMatching(pre, false, nameIs(fiberMod+".getGroupPath"))
-		okRaw := len(joins) == 1 && loadOfField(joins[0].Common.Args[1], "Route.Path")
-		readsNormalised := false
-		for _, fr := range fieldRefs(pre) {
-			if !fr.Write && fr.Name == "Route.path" {
-				readsNormalised = true
+			r.atLeast("composition points", n, 8)
+			// the re-prefixed pattern is built from the route's raw registered pattern (Route.Path), like a group registration
+			// would see it — not from the sub-app's already normalised Route.path
+			pre := r.Fn("", "(*App).addPrefixToRoute")
+			joins := callsMatching(pre, false, nameIs(fiberMod+".getGroupPath"))
+			okRaw := len(joins) == 1 && loadOfField(joins[0].Common.Args[1], "Route.Path")
+			readsNormalised := false
+			for _, fr := range fieldRefs(pre) {
+				if !fr.Write && fr.Name == "Route.path" {
+					readsNormalised = true
+				}
 			}
-		}
-		r.check(okRaw && !readsNormalised, "addPrefixToRoute:joins-raw-pattern", r.fpos(pre), "getGroupPath(prefix, route.Path): the raw pattern is re-normalised with the parent's options",
-			"addPrefixToRoute derives the mounted pattern from the sub-app's normalised Route.path instead of the raw Route.Path: the sub-app's own CaseSensitive/StrictRouting handling is baked into the mounted route, unlike a group registration under the parent")
+			r.check(okRaw && !readsNormalised, "addPrefixToRoute:joins-raw-pattern", r.fpos(pre), "getGroupPath(prefix, route.Path): the raw pattern is re-normalised with the parent's options",
+				"addPrefixToRoute derives the mounted pattern from the sub-app's normalised Route.path instead of the raw Route.Path: the sub-app's own CaseSensitive/StrictRouting handling is baked into the mounted route, unlike a group registration under the parent")
+		})
 	})
 
 	r.rule("R5", "processSubAppsRoutes: splice order prefix|clones|suffix, stack replaced afterwards, sub-apps flattened first, positions renumbered (E3/E10)", func() {
